@@ -127,7 +127,11 @@ func (mv *MessageView) SnapshotRequest(req *http.Request) error {
 
 	mv.traileroffset = int64(buf.Len())
 
-	req.Body = ioutil.NopCloser(bytes.NewReader(data))
+	// Keep http.NoBody: Request.Write treats any other body with
+	// ContentLength 0 as being of unknown length and switches to chunked.
+	if req.Body != http.NoBody {
+		req.Body = ioutil.NopCloser(bytes.NewReader(data))
+	}
 
 	if req.Trailer != nil {
 		req.Trailer.Write(buf)
